@@ -75,9 +75,9 @@ def build_sim(src=None, tag="ebpfsim"):
     o1, o2 = tmp + ".prog.o", tmp + ".drv.o"
     flags = ["-O1", "-g", "-std=gnu11", "-Wall", "-Wno-unused-variable", "-Wno-unused-but-set-variable"]
     util.sh(["gcc"] + flags + ["-I", os.path.join(HARNESS, "shim"), "-DVERIF_EBPF_C=\"%s\"" % cfile,
-                               "-c", os.path.join(HARNESS, "prog_tu.c"), "-o", o1], timeout=120)
-    util.sh(["gcc"] + flags + ["-c", os.path.join(HARNESS, "driver.c"), "-o", o2], timeout=120)
-    util.sh(["gcc", o1, o2, "-o", tmp], timeout=120)
+                               "-c", os.path.join(HARNESS, "prog_tu.c"), "-o", o1], timeout=600)
+    util.sh(["gcc"] + flags + ["-c", os.path.join(HARNESS, "driver.c"), "-o", o2], timeout=600)
+    util.sh(["gcc", o1, o2, "-o", tmp], timeout=600)
     exe = os.path.join(OUT, tag)
     os.replace(tmp, exe)
     for f in (o1, o2):
